@@ -55,6 +55,9 @@ STARTUPS = {
     "complete": [("recv",), ("set_state", "boot", 1), ("send", SC)],
     "gated": [("recv",), ("gate", "ls"), ("set_state", "boot", 1), ("send", SC)],
     "failed": [("recv",), ("gate", "ls"), ("send_strict", SF)],
+    "failed_nomsg": [("recv",), ("gate", "ls"), ("send_strict", {"type": "lifespan.startup.failed"})],
+    "failed_unwind": [("recv",), ("gate", "ls"), ("send_finally", SF, 0.5)],  # cleans up (awaits) while the failure propagates
+    "failed_swallow": [("recv",), ("gate", "ls"), ("send", SF), ("sleep", 0.5), ("return",)],  # catches what send() raised
     "raise_before": [("raise",)],
     "raise_after_recv": [("recv",), ("gate", "ls"), ("raise",)],
     "hang": [("recv",), ("gate", "never")],
@@ -159,8 +162,9 @@ def oracle(w: Any, params: Any) -> List[dict]:
     ticks_left = w.driver.pos[-1] < len(w.driver.sources[-1][1])
     if fam == "life":
         rel_fired = ("release", "ls") in [e for _, e in w.driver.fired]
-        if su == "failed" and rel_fired:
-            if w.serve_result is None or not w.serve_result.startswith("exc:"):
+        if su.startswith("failed") and rel_fired:
+            sent = any(r[2]["type"] == "lifespan.startup.failed" and r[3] != "pending" for r in life.sends)
+            if sent and life.outcome != "running" and (w.serve_result is None or not w.serve_result.startswith("exc:")):
                 out.append(V("startup-failure-ignored", f"{tag}:result", f"worker_serve: {w.serve_result}"))
             if reqs:
                 out.append(V("startup-failure-ignored", f"{tag}:served", "a request scope was created after startup.failed"))
